@@ -5,6 +5,7 @@ package harness
 // function and a classifier, and registers a replay decoder.
 
 import (
+	"bytes"
 	"encoding/binary"
 	"encoding/json"
 	"flag"
@@ -376,12 +377,29 @@ func writeFail(id, part string, cj []byte, v *Violation) {
 
 // eval runs one case: check, known-finding attribution, statistics. It returns a non-nil
 // violation only if the case violates and no open known finding explains it.
+var (
+	poisonCase      []byte
+	poisonViolation *Violation
+)
+
 func (p *Prop[C]) eval(st *Stats, part string, c C) *Violation {
 	cj, err := json.Marshal(c)
 	if err != nil {
 		panic(fmt.Sprintf("harness: case not serialisable: %v", err))
 	}
+	// A hang leaves goroutines of the tested code spinning in this process (they also keep writing to go-pars'
+	// shared pars.Void sink), so nothing evaluated afterwards is trustworthy: the hanging case is reported as it
+	// is and every further evaluation (shrinking) is answered without running the code.
+	if poisonCase != nil {
+		if bytes.Equal(cj, poisonCase) {
+			return poisonViolation
+		}
+		return nil
+	}
 	v := p.Check(c)
+	if v != nil && v.Kind == "hang" {
+		poisonCase, poisonViolation = cj, v
+	}
 	nontrivial, labels := false, []string(nil)
 	if p.Classify != nil {
 		nontrivial, labels = p.Classify(c)
